@@ -1,4 +1,5 @@
 import os
+import collections
 import warnings
 import datetime
 
@@ -150,8 +151,7 @@ class load(DataStreamProcessor):
             for resource_descriptor in datapackage_descriptor['resources']:
                 if resource_matcher.match(resource_descriptor['name']):
                     self.resource_descriptors.append(resource_descriptor)
-            self.iterators = (resource for resource, descriptor in zip(resource_iterator, resources)
-                              if resource_matcher.match(descriptor['name']))
+            self.iterators = self.selected_iterators(resource_iterator, resources, resource_matcher)
 
         # If load_source is string:
         else:
@@ -231,6 +231,16 @@ class load(DataStreamProcessor):
                 self.iterators.append(stream.iter(keyed=True))
         dp.descriptor.setdefault('resources', []).extend(self.resource_descriptors)
         return dp
+
+    @staticmethod
+    def selected_iterators(resource_iterator, resources, resource_matcher):
+        for resource, descriptor in zip(resource_iterator, resources):
+            if resource_matcher.match(descriptor['name']):
+                yield resource
+            else:
+                # the iterators may all read one sequential medium (unstream, a checkpoint):
+                # the rows of a skipped resource have to be consumed before the next one starts
+                collections.deque(resource, maxlen=0)
 
     def stripper(self, iterator):
         whitespace = set(' \t\n\r')
